@@ -601,6 +601,9 @@ func (a *MaxValueArg) Parse() error {
 type argRb struct {
 	Min, Max   bool
 	Start, End string
+	// The lower boundary is the max keyword / the upper boundary is the
+	// min keyword, as in the parts "max" and "min" on their own.
+	StartMax, EndMin bool
 }
 
 type RangeArgBdrySlice []argRb
@@ -632,8 +635,10 @@ func (a *RangeArg) Parse() error {
 			switch rbs[0] {
 			case "max":
 				r.Max = true
+				r.StartMax = true
 			case "min":
 				r.Min = true
+				r.EndMin = true
 			default:
 				r.Start = rbs[0]
 				r.End = rbs[0]
@@ -642,12 +647,16 @@ func (a *RangeArg) Parse() error {
 			switch rbs[0] {
 			case "min":
 				r.Min = true
+			case "max":
+				r.StartMax = true
 			default:
 				r.Start = rbs[0]
 			}
 			switch rbs[1] {
 			case "max":
 				r.Max = true
+			case "min":
+				r.EndMin = true
 			default:
 				r.End = rbs[1]
 			}
@@ -662,6 +671,9 @@ func (a *RangeArg) Parse() error {
 type Lb struct {
 	Min, Max   bool
 	Start, End uint64
+	// The lower boundary is the max keyword / the upper boundary is the
+	// min keyword, as in the parts "max" and "min" on their own.
+	StartMax, EndMin bool
 }
 
 // A length boundary is a non-negative-integer-value in decimal digits.
@@ -705,8 +717,10 @@ func (a *LengthArg) Parse() error {
 			switch bs[0] {
 			case "max":
 				l.Max = true
+				l.StartMax = true
 			case "min":
 				l.Min = true
+				l.EndMin = true
 			default:
 				i, e := parseLengthBoundary(bs[0])
 				if e != nil {
@@ -719,6 +733,8 @@ func (a *LengthArg) Parse() error {
 			switch bs[0] {
 			case "min":
 				l.Min = true
+			case "max":
+				l.StartMax = true
 			default:
 				i, e = parseLengthBoundary(bs[0])
 				if e != nil {
@@ -729,6 +745,8 @@ func (a *LengthArg) Parse() error {
 			switch bs[1] {
 			case "max":
 				l.Max = true
+			case "min":
+				l.EndMin = true
 			default:
 				i, e = parseLengthBoundary(bs[1])
 				if e != nil {
